@@ -28,7 +28,7 @@ META = {
     "specs": ["Nested", "NestedTrace"],
 }
 
-BLOCKS = [["p"], ["cdir"], ["def", 1], ["use", 1], ["nuse", 1], ["fdef", 1], ["fref", 1], ["tgt", 1], ["lnk", 1]]
+BLOCKS = [["p"], ["cdir"], ["def", 1], ["use", 1], ["nuse", 1], ["fdef", 1], ["fref", 1], ["tgt", 1], ["lnk", 1], ["spec"]]
 MORE = [["code"], ["list"], ["def", 2], ["use", 2], ["nuse", 2], ["fdef", 2], ["fref", 2], ["tgt", 2], ["lnk", 2]]
 WRAPPERS = ["btick", "colon", "opts", "nested2", "div", "include", "substitution"]
 
@@ -39,6 +39,8 @@ def block_lines(b, i):
         return [f"P{i}x"]
     if k == "code":
         return ["```", f"C{i}x", "```"]
+    if k == "spec":        # characters that are special in HTML / Jinja / option syntax, a quote, a code span, an autolink
+        return [f"> S{i}x a < b & \"c\" 'd' `x<y&z` <https://e.x/?a=1&b=2>", ">", "> :colon: line"]
     if k == "list":
         mk = "-" if i % 2 else "*"          # adjacent lists with the same marker would merge into one
         return [f"{mk} L{i}x", f"{mk} second"]
@@ -61,7 +63,7 @@ def block_lines(b, i):
     raise ValueError(k)
 
 
-MARK = {"p": "P", "code": "C", "list": "L", "cdir": "D", "use": "U", "nuse": "N", "fdef": "F", "fref": "G", "tgt": "T", "lnk": "K"}
+MARK = {"spec": "S", "p": "P", "code": "C", "list": "L", "cdir": "D", "use": "U", "nuse": "N", "fdef": "F", "fref": "G", "tgt": "T", "lnk": "K"}
 
 
 def join(blocks, start):
